@@ -9,7 +9,9 @@ Request:  run <flag 0|1> <path absent|file|dir> <excs> <body>
          a declared id; suppress 0|1 is `__suppress_context__`)
   body : prefix notation, tokens separated by one blank:
          nop | rc k | rn k | sr 0|1 | nest 0|1 B | fr 0|1 | cap | seq A B | h k B
-         | fx form acc rais B | fc form acc rais k | rp d|n|r<k> B | rwc N|none|<k>
+         | fx form acc rais yes/no B | fc form acc rais yes/no k | rp d|n|r<k> B | rwc N|none|<k>
+           yes/no: the objects the predicate returns for accepted / other ids: T F N o m i<int> s<len>
+                 l<len> t<len> b0 b1 (object whose __bool__ is False / True)
            form: 0 function, 1 instance method, 2/3 classmethod via class/instance,
                  4/5 staticmethod via class/instance
          | nt 0|1 B LATE | hnt k 0|1 B LATE
@@ -27,6 +29,22 @@ def parseForm : String → Option FilterForm
   | "0" => some .func | "1" => some .method
   | "2" => some (.classMethod false) | "3" => some (.classMethod true)
   | "4" => some (.staticMethod false) | "5" => some (.staticMethod true)
+  | _ => none
+
+def parseVal (s : String) : Option PyVal :=
+  match s.toList with
+  | ['T'] => some (.bool true) | ['F'] => some (.bool false)
+  | ['N'] => some .none | ['o'] => some .object | ['m'] => some .matchObj
+  | 'i' :: r => (String.ofList r).toInt?.map .int
+  | 's' :: r => (String.ofList r).toNat?.map .str
+  | 'l' :: r => (String.ofList r).toNat?.map .list
+  | 't' :: r => (String.ofList r).toNat?.map .tuple
+  | ['b', '0'] => some (.custom false) | ['b', '1'] => some (.custom true)
+  | _ => none
+
+def parseStyle (s : String) : Option (PyVal × PyVal) :=
+  match s.splitOn "/" with
+  | [a, b] => do pure ((← parseVal a), (← parseVal b))
   | _ => none
 
 def parseIds (s : String) : Option (List Nat) :=
@@ -69,18 +87,20 @@ def parseBody : Nat → List String → Option (Body × List String)
       let k ← k.toNat?
       let (body, r) ← parseBody fuel r
       pure (.handle k body, r)
-    | "fx" :: bound :: acc :: rais :: r => do
+    | "fx" :: bound :: acc :: rais :: style :: r => do
       let bound ← parseForm bound
       let acc ← parseIds acc
       let rais ← parsePairs rais
+      let (yes, no) ← parseStyle style
       let (body, r) ← parseBody fuel r
-      pure (.filterCtx bound ⟨acc, rais⟩ body, r)
-    | "fc" :: bound :: acc :: rais :: k :: r => do
+      pure (.filterCtx bound ⟨acc, rais, yes, no⟩ body, r)
+    | "fc" :: bound :: acc :: rais :: style :: k :: r => do
       let bound ← parseForm bound
       let acc ← parseIds acc
       let rais ← parsePairs rais
+      let (yes, no) ← parseStyle style
       let k ← k.toNat?
-      pure (.filterCall bound ⟨acc, rais⟩ k, r)
+      pure (.filterCall bound ⟨acc, rais, yes, no⟩ k, r)
     | "rp" :: rm :: r => do
       let rm ← parseRemove rm
       let (body, r) ← parseBody fuel r
